@@ -634,7 +634,18 @@ impl<'a> Validator<'a> {
                 None | Some(b'\n' | b'\r') => return false,
                 Some(_) if saw_tab => {
                     // Tab separates the indicator from a nested block construct.
-                    return is_indicator(j) || self.mapping_key_at(j);
+                    // Node properties (`&anchor`, `!tag`) may stand between the
+                    // tab and the node they decorate; what matters is the node.
+                    let mut k = j;
+                    while matches!(self.input.get(k), Some(b'&' | b'!')) {
+                        while !matches!(self.input.get(k), None | Some(b' ' | b'\t' | b'\n' | b'\r')) {
+                            k += 1;
+                        }
+                        while matches!(self.input.get(k), Some(b' ' | b'\t')) {
+                            k += 1;
+                        }
+                    }
+                    return is_indicator(j) || super::line_is_structural(self.input, k);
                 }
                 Some(_) if is_indicator(j) => {
                     // Another indicator with no tab yet — keep looking.
@@ -643,25 +654,6 @@ impl<'a> Validator<'a> {
                 _ => return false,
             }
         }
-    }
-
-    /// True if the token starting at byte `i` forms a block mapping key, i.e. a
-    /// `: ` value indicator appears before the end of that line.
-    fn mapping_key_at(&self, mut i: usize) -> bool {
-        while let Some(&b) = self.input.get(i) {
-            match b {
-                b'\n' | b'\r' => return false,
-                b':' if matches!(
-                    self.input.get(i + 1),
-                    None | Some(b' ' | b'\t' | b'\n' | b'\r')
-                ) =>
-                {
-                    return true
-                }
-                _ => i += 1,
-            }
-        }
-        false
     }
 
     /// True if the remainder of the current line is only whitespace (spaces or
